@@ -70,6 +70,8 @@ class PathSim:
         self.leaf = leaf
         self.none_of = none_of
         self._done: list[Path] = []
+        # record classes whose instances unpack in the order of their positional construction (NamedTuple): name -> field names
+        self.records: dict[str, list[str]] = {}
 
     # -- expressions ----------------------------------------------------------------------------------------------
     def truth(self, e: ast.expr, st: State) -> "bool | None":
@@ -172,6 +174,9 @@ class PathSim:
         elif isinstance(target, (ast.Tuple, ast.List)):
             if value is not None and not isinstance(value, (ast.Tuple, ast.List)):
                 value = self.resolve(value, before)   # `a, b = (x, y) if c else (y, x)` with c known on this path
+                comps = record_components(value, self.records)
+                if comps is not None:                 # `a, b = R(x, y)` / `R(first=x, second=y)` with R a tuple-like record
+                    value = ast.Tuple(elts=comps, ctx=ast.Load())
             if isinstance(value, (ast.Tuple, ast.List)) and len(value.elts) == len(target.elts) and \
                     not any(isinstance(x, ast.Starred) for x in [*value.elts, *target.elts]):
                 for t, v in zip(target.elts, value.elts):
@@ -334,6 +339,66 @@ class PathSim:
                     st1 = dict(st1)
                     self._bind(n.target, n.value, st, st1)
         return [(st1, trail + [Event("stmt", s, st)], None)]
+
+
+def record_components(v: "ast.AST | None", records: dict[str, list[str]]) -> "list[ast.expr] | None":
+    """the components of a record built by a constructor call, in the order in which unpacking the record yields them (the order of
+    the fields); None when v is not such a call or a component is not given explicitly"""
+    if not isinstance(v, ast.Call):
+        return None
+    flds = records.get(call_name(v).rsplit(".", 1)[-1])
+    if flds is None or len(v.args) > len(flds) or any(isinstance(a, ast.Starred) for a in v.args) or any(k.arg is None for k in v.keywords):
+        return None
+    given: dict[str, ast.expr] = dict(zip(flds, v.args))
+    for k in v.keywords:
+        if k.arg not in flds or k.arg in given:
+            return None
+        given[k.arg] = k.value  # type: ignore[index]
+    return [given[x] for x in flds] if all(x in given for x in flds) else None
+
+
+def tuple_records(ix: Any) -> dict[str, list[str]]:
+    """the classes of the package that are tuples with named fields (typing.NamedTuple): class name -> fields in declaration order"""
+    out: dict[str, list[str]] = {}
+    for c in ix.classes.values():
+        if any((dotted(b) or "").rsplit(".", 1)[-1] == "NamedTuple" for b in c.base_exprs):
+            out[c.name] = [st.target.id for st in c.node.body if isinstance(st, ast.AnnAssign) and isinstance(st.target, ast.Name)]
+    return {k: v for k, v in out.items() if v and sum(1 for c in ix.classes.values() if c.name == k) == 1}
+
+
+def exclusive_helpers(ix: Any, family: "list[FuncInfo]") -> list[FuncInfo]:
+    """module-level functions of the package that exist only for the given functions: called from one of them (or from a private
+    helper of its region) by a name that resolves to the function, and called from nowhere else in the package.  Such a function
+    is a piece of the family's implementation whatever its name and whichever module it lives in - a part that several siblings
+    share has to be importable, so it cannot be spelt as a private helper of one of them"""
+    inside: set[str] = set()
+    for f in family:
+        inside |= {g.qual for g in region_any(ix, f)}
+    sites: dict[str, list[str]] = {}
+    byq: dict[str, FuncInfo] = {}
+    for g in ix.all_functions:
+        for c in calls_in(g.node):
+            nm = dotted(c.func)
+            if not nm or nm.split(".", 1)[0] in ("self", "cls"):
+                continue
+            r = ix.resolve(g.module, nm)
+            if r is not None and r[0] == "func" and r[1].cls is None and r[1].parent is None:
+                h = r[1]
+                top = g
+                while top.parent is not None:
+                    top = top.parent
+                byq[h.qual] = h
+                sites.setdefault(h.qual, []).append(top.qual)
+    out: list[FuncInfo] = []
+    changed = True
+    while changed:
+        changed = False
+        for q, callers in sites.items():
+            if q not in inside and all(c in inside for c in callers):
+                inside |= {g.qual for g in region_any(ix, byq[q])}
+                out.append(byq[q])
+                changed = True
+    return out
 
 
 # =====================================================================================================================
@@ -599,9 +664,18 @@ class _Inliner:
 
     MAX_STMTS = 400
 
-    def __init__(self, ix: Any, f: FuncInfo, depth: int = 2):
+    def __init__(self, ix: Any, f: FuncInfo, depth: int = 2, family: "list[FuncInfo] | None" = None):
         self.f = f
         self.helpers = {h.name: h for h in region_any(ix, f, depth)[1:]}
+        # functions that exist only for f and its siblings (exclusive_helpers) are pieces of f as well, with their own private
+        # helpers; they are called by their plain (imported) name
+        self.shared: set[str] = set()
+        for h in exclusive_helpers(ix, [f, *[g for g in family if g is not f]]) if family is not None else []:
+            if h.name not in self.helpers and isinstance(ix.resolve(f.module, h.name), tuple) and ix.resolve(f.module, h.name)[1] is h:
+                self.helpers[h.name] = h
+                self.shared.add(h.name)
+                for g in region_any(ix, h, depth)[1:]:
+                    self.helpers.setdefault(g.name, g)
         self.depth = depth
         self.n = 0
         self.own = local_names(f.node) | {p.arg for p in f.params}
@@ -704,6 +778,8 @@ class _Inliner:
 
     def _helper_of(self, c: ast.Call) -> "FuncInfo | None":
         last = c.func.attr if isinstance(c.func, ast.Attribute) else c.func.id if isinstance(c.func, ast.Name) else ""
+        if last in self.shared and not isinstance(c.func, ast.Name):
+            return None
         return self.helpers.get(last)
 
     def _hoist(self, s: ast.stmt, stack: tuple[str, ...]) -> list[ast.stmt]:
@@ -837,10 +913,11 @@ class _Inliner:
         return self._block(new, stack + (last,))
 
 
-def inline_tail_calls(ix: Any, f: FuncInfo) -> ast.AST:
+def inline_tail_calls(ix: Any, f: FuncInfo, family: "list[FuncInfo] | None" = None) -> ast.AST:
     """f's definition with the private helpers of its region written out in place (f.node itself when there is none); the name is
-    historical: calls in return position were the first to be written out"""
-    return _Inliner(ix, f).run()
+    historical: calls in return position were the first to be written out.  With `family` (f and its sibling implementations) the
+    functions of the package that only they call are written out as well"""
+    return _Inliner(ix, f, family=family).run()
 
 
 # =====================================================================================================================
@@ -872,6 +949,50 @@ def _filters_over(fn: ast.AST, is_src: Callable[[ast.expr], bool]) -> list[tuple
     return out
 
 
+def _unpacked_record_defs(lc: Locals, records: dict[str, list[str]]) -> None:
+    """`a, b = m` where m (through plain aliases) is bound to a record built as R(x, y), or to a tuple written out, binds a to x and b
+    to y: these bindings are added to the table of definitions (as plain assignments), so that roles found from what a local is
+    bound from pass through a result that travels as a record.  Bindings of m that do not unpack into as many targets are no
+    source of the targets (the unpacking would fail); a binding of unknown make-up (the result of a call) stays a source as a whole"""
+    def sources(nm: str, seen: frozenset = frozenset()) -> list[ast.AST]:
+        out: list[ast.AST] = []
+        for k, _, v in lc.defs.get(nm, []):
+            if k != "assign" or v is None:
+                continue
+            if isinstance(v, ast.Name) and v.id not in seen:
+                out += sources(v.id, seen | {nm})
+            else:
+                out.append(v)
+        return out
+
+    for nm, ds in lc.defs.items():
+        new_ds: list[tuple[str, ast.AST, "ast.AST | None"]] = []
+        for k, st, v in ds:
+            new_ds.append((k, st, v))
+            if not (k.startswith("assign[") and k.count("[") == 1 and isinstance(v, ast.Name)):
+                continue
+            i = int(k[len("assign["):-1])
+            tgt = st.targets[0] if isinstance(st, ast.Assign) and len(st.targets) == 1 else getattr(st, "target", None)
+            if not isinstance(tgt, (ast.Tuple, ast.List)) or any(isinstance(x, ast.Starred) for x in tgt.elts):
+                continue
+            refined: list[tuple[str, ast.AST, "ast.AST | None"]] = []
+            n_known = 0
+            for src in sources(v.id):
+                comps = record_components(src, records) or (list(src.elts) if isinstance(src, ast.Tuple) else None)
+                if comps is None:
+                    refined.append((k, st, src))          # a value of unknown make-up: the target is computed from all of it
+                elif any(isinstance(x, ast.Starred) for x in comps):
+                    refined.append((k, st, src))
+                elif len(comps) == len(tgt.elts):
+                    n_known += 1
+                    refined.append(("assign", st, comps[i]))
+                else:
+                    n_known += 1                           # would not unpack into these targets: no source of them
+            if n_known:
+                new_ds[-1:] = refined
+        ds[:] = new_ds
+
+
 def _keeps_non_null(cond: ast.expr, var: str) -> bool:
     parts = cond.values if isinstance(cond, ast.BoolOp) and isinstance(cond.op, ast.And) else [cond]
     return all(_is_none_test(p, var) is False for p in parts)
@@ -880,11 +1001,14 @@ def _keeps_non_null(cond: ast.expr, var: str) -> bool:
 class _Builder:
     """roles of the locals of one enum builder (found from what they are bound from, never from their spelling)"""
 
-    def __init__(self, ix: Any, f: FuncInfo, cls_name: str):
+    def __init__(self, ix: Any, f: FuncInfo, cls_name: str, family: "list[FuncInfo] | None" = None):
         self.ix, self.f, self.K = ix, f, cls_name
-        # the builder with its later phases written out in place (`return cls._second_phase(...)`)
-        self.fn = inline_tail_calls(ix, f)
+        # the builder with its later phases written out in place (`return cls._second_phase(...)`), and with the functions that
+        # only the builders call (a part the siblings share)
+        self.fn = inline_tail_calls(ix, f, family)
         self.lc = Locals(self.fn)
+        self.records = tuple_records(ix)
+        _unpacked_record_defs(self.lc, self.records)
         self.locals = local_names(self.fn)
         # the parameters, and the locals that only ever stand for one (a phase's parameter bound to the caller's)
         self.params = {p.arg for p in f.params}
@@ -1105,6 +1229,13 @@ class _Builder:
                     last = call_name(r).rsplit(".", 1)[-1]
                     if last in ("evolve", "cls") or (last not in ERROR_CLASSES and any(k.name == last for k in self.ix.classes.values())):
                         return False
+            if isinstance(e, ast.Call) and call_name(e) == "isinstance" and len(e.args) == 2:
+                # is the value an instance of a class of the package / a builtin type: decided by what the local holds on THIS path
+                asked = set(_class_names(e.args[1]))
+                known = {k.name for k in self.ix.classes.values()} | self._BUILTIN
+                have = self._kinds_of(sim.resolve(e.args[0], st)) if asked and asked <= known and not asked & ERROR_CLASSES else None
+                if have is not None:
+                    return bool(asked & have)
             return None
 
         def none_of(e: ast.expr, st: State, sim: PathSim) -> "bool | None":
@@ -1115,7 +1246,79 @@ class _Builder:
                 return not sc["P"]
             return None
 
-        return PathSim(self.fn, leaf, none_of)
+        ps = PathSim(self.fn, leaf, none_of)
+        ps.records = self.records
+        return ps
+
+    # -- what kind of object an expression is -------------------------------------------------------------------------------
+    _BUILTIN = {"tuple", "list", "dict", "set", "frozenset", "str", "int", "float", "bool", "bytes"}
+
+    def _kinds_of(self, r: ast.expr) -> "set[str] | None":
+        """the classes (package classes with their ancestors, builtin types) the value of the expression is an instance of, as far
+        as the expression itself tells: something written out (a tuple, a list, ...), an object constructed by calling a class of
+        the package, the result of a function or method of the package that declares what it returns; None: not known"""
+        lit = {ast.Tuple: "tuple", ast.List: "list", ast.ListComp: "list", ast.Dict: "dict", ast.DictComp: "dict", ast.Set: "set", ast.SetComp: "set",
+               ast.JoinedStr: "str"}.get(type(r))
+        if lit is not None:
+            return {lit}
+        if isinstance(r, ast.Constant):
+            return {type(r.value).__name__} | ({"int"} if isinstance(r.value, bool) else set())
+        if not isinstance(r, ast.Call):
+            return None
+        nm = dotted(r.func) or ""
+        if nm == "cls":
+            nm = self.K
+        got = self.ix.resolve(self.f.module, nm) if nm else None
+        if got is None and nm:
+            cands = [c for c in self.ix.classes.values() if c.name == nm]
+            hs = [h for h in self.helpers.values() if h.name == nm.rsplit(".", 1)[-1]] if "." not in nm or nm.split(".")[0] in ("self", "cls") else []
+            got = ("class", cands[0]) if len(cands) == 1 else ("func", hs[0]) if len(hs) == 1 else None
+        if got is None:
+            return None
+        if got[0] == "class":
+            return self._ancestry(got[1])
+        if got[0] == "func" and got[1].node.returns is not None:
+            alts: list[ast.expr] = [got[1].node.returns]
+            heads: set[str] = set()
+            while alts:
+                a = alts.pop()
+                if isinstance(a, ast.Constant) and isinstance(a.value, str):
+                    try:
+                        a = ast.parse(a.value, mode="eval").body
+                    except SyntaxError:
+                        return None
+                if isinstance(a, ast.BinOp) and isinstance(a.op, ast.BitOr):
+                    alts += [a.left, a.right]
+                    continue
+                if isinstance(a, ast.Subscript):
+                    h = (dotted(a.value) or "").rsplit(".", 1)[-1]
+                    if h in ("Union", "Optional"):
+                        alts += list(a.slice.elts) if isinstance(a.slice, ast.Tuple) else [a.slice]
+                        if h == "Optional":
+                            heads.add("NoneType")
+                        continue
+                    a = a.value
+                if isinstance(a, ast.Constant) and a.value is None:
+                    heads.add("NoneType")
+                    continue
+                h = (dotted(a) or "").rsplit(".", 1)[-1]
+                h = {"Tuple": "tuple", "List": "list", "Dict": "dict", "Set": "set"}.get(h, h)
+                if h in self._BUILTIN:
+                    heads.add(h)
+                    continue
+                cands = [c for c in self.ix.classes.values() if c.name == h]
+                if len(cands) != 1:
+                    return None
+                # a declared class stands for itself and its subclasses: only what all of them are is known
+                return None if self.ix.subclasses(cands[0]) else self._ancestry(cands[0]) if not alts and not heads else None
+            return heads or None
+        return None
+
+    def _ancestry(self, c: Any) -> set[str]:
+        out = {k.name for k in self.ix.mro(c)}
+        for k in self.ix.mro(c):
+            out |= {"tuple" if b.rsplit(".", 1)[-1] == "NamedTuple" else b.rsplit(".", 1)[-1] for b in self.ix.ext_bases(k)}
+        return out
 
     def relevant(self, t: ast.AST) -> bool:
         return bool(names_in(t) & (self.locals - self.params)) or _private_call(t)
@@ -1183,10 +1386,11 @@ def enum_builder_parity(rep: Report, ctx: Any, rid: str) -> None:
                   "is taken is reused only by an enum of the same class with the same members; the default goes through "
                   "convert_value and a rejected default returns the error without registering the class")
     n_facts = 0
+    family = [g for g in (ix.cls(c).methods.get("build") for c in ("EnumProperty", "LiteralEnumProperty")) if g is not None]
     for cname in ("EnumProperty", "LiteralEnumProperty"):
         f = ix.cls(cname).methods.get("build")
         rep.require(f, f"{cname}.build")
-        b = _Builder(ix, f, cname)
+        b = _Builder(ix, f, cname, family)
         w = where(f, f.node)
         k = short(f)
         # ---- nulls are dropped by identity ---------------------------------------------------------------------------
